@@ -362,20 +362,20 @@ theorem flatMap_writeTagPair (tags : List (Str × Str))
     rfl
 
 /-- the tag pairs of a result (empty when an assertion fails) -/
-def tagsOf (r : PbnResult) : List (Str × Str) := (resultTags? r).getD []
+def resultTagsOf (r : PbnResult) : List (Str × Str) := (resultTags? r).getD []
 
-theorem resultTags_tagsOf (r : PbnResult) (h : r.WF) : resultTags? r = some (tagsOf r) := by
+theorem resultTags_tagsOf (r : PbnResult) (h : r.WF) : resultTags? r = some (resultTagsOf r) := by
   obtain ⟨tags, ht⟩ := resultTags_some r h
-  rw [tagsOf, ht]; rfl
+  rw [resultTagsOf, ht]; rfl
 
 theorem writeBoardResult_layout (r : PbnResult) (h : r.WF) :
-    writeBoardResult? r = some (GameL.lines ['\n'] (resultGame (tagsOf r))) := by
+    writeBoardResult? r = some (GameL.lines ['\n'] (resultGame (resultTagsOf r))) := by
   have ht := resultTags_tagsOf r h
   rw [writeBoardResult?, ht, Option.map_some, flatMap_writeTagPair _ (h.fits _ ht)]
   simp [GameL.lines, resultGame, List.map_map, Function.comp_def]
 
 theorem resultGame_admissible (r : PbnResult) (h : r.WF) (last : Bool) :
-    (resultGame (tagsOf r)).Admissible last := by
+    (resultGame (resultTagsOf r)).Admissible last := by
   have ht := resultTags_tagsOf r h
   refine ⟨?_, ?_, ?_, ?_⟩
   · intro i hi
@@ -384,7 +384,7 @@ theorem resultGame_admissible (r : PbnResult) (h : r.WF) (last : Bool) :
     obtain ⟨h1, h2⟩ := resultTags_plain r h _ ht tc htc
     simp [PbnItem.ok, h1, h2, isBlank]
   · have hlen := resultTags_length r _ ht
-    cases hts : tagsOf r with
+    cases hts : resultTagsOf r with
     | nil => rw [hts] at hlen; exact absurd hlen (by decide)
     | cons tc rest => exact ⟨tc.1, tc.2, false, false, [], rest.map fun tc => .tag tc.1 tc.2 false false [], by simp [resultGame]⟩
   · intro s hs
@@ -410,7 +410,7 @@ is admissible -/
 theorem export_is_layout (rs : List PbnResult) (h : ∀ r ∈ rs, r.WF) :
     ∃ tagss css, rs.mapM resultTags? = some tagss ∧ rs.mapM writeBoardResult? = some css ∧
       css.flatten = (exportFile tagss).lines ∧ (exportFile tagss).Admissible := by
-  refine ⟨rs.map tagsOf, rs.map fun r => GameL.lines ['\n'] (resultGame (tagsOf r)),
+  refine ⟨rs.map resultTagsOf, rs.map fun r => GameL.lines ['\n'] (resultGame (resultTagsOf r)),
     mapM_eq_map _ _ _ fun r hr => resultTags_tagsOf r (h r hr),
     mapM_eq_map _ _ _ fun r hr => writeBoardResult_layout r (h r hr), ?_, ?_⟩
   · simp [exportFile, FileL.lines, List.flatMap_def, List.map_map, Function.comp_def]
